@@ -172,7 +172,8 @@ claim('C03', 'proof',
       'value to the C-level store, and when formalization raises (the schema rejected the value) nothing at all was written or detached before -- the targeted '
       'location keeps its previous content; `append`/`insert`/`del` keep the length within [min_size, max_size] and leave the list unchanged when they refuse; '
       '`Schema.is_compatible` -- on whose answer a value that carries its own spec is adopted without re-validation -- pairs fields by key (shape-bounded, shared with C04); '
-      '`Dict.popitem` is refused, with nothing removed, exactly when the dict has a value spec. '
+      '`Dict.popitem` is refused, with nothing removed, exactly when the dict has a value spec; `Schema.get_field` -- the lookup every write path uses -- returns the constant key\'s own field, else the field of the '
+      'FIRST key spec in declaration order whose pattern matches (the rule construction uses), else None (2 obligations, shape-bounded: three key specs, matches are Boolean unknowns). '
       'The full schema vocabulary x every write path x valid/invalid values is exercised by the bounded tier (re-apply of every stored member after every step).',
       'Trusted: engine; `Field.apply`/`ValueSpec.apply` are abstracted (C04 proves their algebra); `_relocate_if_symbolic` by its C01 contract. Object construction, '
       'Schema.apply key resolution and frozen/required-field rules are bounded-tier only.',
